@@ -15,6 +15,7 @@ template <> struct tag_of<2> { using type = UpLoType::Upper; };
 // FORM 1: pointer kernel _tmatmul<T,M,K,N,L,R> writing straight into the painted guard-flush buffer
 // FORM 2: rank-1 overloads tmatmul<L,R>(A,v) (N==1) / tmatmul<L,R>(v,B) (M==1)
 // FORM 3: expression operands tmatmul<L,R>(A+0, B-0) (C++14 generic overload, evaluates into temporaries)
+// FORM 4/5: the mixed overloads tmatmul<L,R>(A+0, B) and tmatmul<L,R>(A, B-0) (each forwards the two tags itself)
 template <class T, size_t M, size_t K, size_t N, int LT, int RT, int FORM>
 void thunk(const T *a, const T *b, T *out) {
   using L = typename tag_of<LT>::type;
@@ -24,6 +25,8 @@ void thunk(const T *a, const T *b, T *out) {
   std::copy(a, a + M * K, A.data()); std::copy(b, b + K * N, B.data());
   if constexpr (FORM == 0) { Tensor<T, M, N> C = tmatmul<L, R>(A, B); std::copy(C.data(), C.data() + M * N, out); }
   else if constexpr (FORM == 3) { Tensor<T, M, N> C = tmatmul<L, R>(A + T(0), B - T(0)); std::copy(C.data(), C.data() + M * N, out); }
+  else if constexpr (FORM == 4) { Tensor<T, M, N> C = tmatmul<L, R>(A + T(0), B); std::copy(C.data(), C.data() + M * N, out); }   // expression x tensor overload
+  else if constexpr (FORM == 5) { Tensor<T, M, N> C = tmatmul<L, R>(A, B - T(0)); std::copy(C.data(), C.data() + M * N, out); }   // tensor x expression overload
   else if constexpr (FORM == 2) {
     if constexpr (N == 1) {
       Tensor<T, K> v; std::copy(b, b + K, v.data());
@@ -56,7 +59,7 @@ template <class T> inline size_t inside(size_t rows, size_t cols, int tag) {
 
 template <class T>
 void driver(vf::Draw &d, vf::Ctx &ctx, size_t M, size_t K, size_t N, int lt, int rt, int form, void (*kern)(const T *, const T *, T *)) {
-  static const char *fnames[] = {"tmatmul(A,B)", "_tmatmul pointer kernel", "tmatmul with rank-1 operand", "tmatmul(A+0,B-0)"};
+  static const char *fnames[] = {"tmatmul(A,B)", "_tmatmul pointer kernel", "tmatmul with rank-1 operand", "tmatmul(A+0,B-0)", "tmatmul(A+0,B)", "tmatmul(A,B-0)"};
   static const char *tn[] = {"General", "Lower", "Upper"};
   static const char tc[] = {'G', 'L', 'U'};
   std::vector<T> A(M * K), B(K * N);
@@ -75,7 +78,7 @@ void driver(vf::Draw &d, vf::Ctx &ctx, size_t M, size_t K, size_t N, int lt, int
   ctx.label(std::string("tags:") + tc[lt] + tc[rt]);
   ctx.label(square ? "shape:square" : ((M != K && lt != 0) || (K != N && rt != 0)) ? "shape:trapezoid" : "shape:rect-general");
   ctx.label(mode ? "data:dense" : "data:int");
-  ctx.label(std::string("form:") + (form == 0 ? "tensor" : form == 1 ? "pointer" : form == 2 ? "rank1" : "expr"));
+  ctx.label(std::string("form:") + (form == 0 ? "tensor" : form == 1 ? "pointer" : form == 2 ? "rank1" : form == 3 ? "expr" : form == 4 ? "expr-tensor" : "tensor-expr"));
   ctx.label(M % 4 ? "rows:M%4!=0" : "rows:M%4==0");
   char nb[160]; snprintf(nb, sizeof nb, "%s <%s,%s> M=%zu K=%zu N=%zu data=%s", fnames[form], tn[lt], tn[rt], M, K, N, mode ? "dense integer-valued" : "integer-valued"); ctx.note = nb;
   char what[96]; snprintf(what, sizeof what, "%s<%s,%s>", fnames[form], tn[lt], tn[rt]);
